@@ -280,7 +280,7 @@ pub fn on_fresh_thread<R: Send + 'static>(f: impl FnOnce() -> R + Send + 'static
 /// keep listener sockets open, and with SO_REUSEPORT a leaked listener would
 /// steal connections from the next execution) survives the execution.
 /// `Err` carries the wait status when the child did not exit cleanly.
-pub fn isolated<R: serde::Serialize + serde::de::DeserializeOwned>(f: impl FnOnce() -> R) -> Result<R, String> {
+pub fn isolated<R: serde::Serialize + serde::de::DeserializeOwned + Send>(f: impl FnOnce() -> R + Send) -> Result<R, String> {
     use std::io::Read;
     let mut fds = [0 as libc::c_int; 2];
     if unsafe { libc::pipe(fds.as_mut_ptr()) } != 0 {
@@ -294,8 +294,22 @@ pub fn isolated<R: serde::Serialize + serde::de::DeserializeOwned>(f: impl FnOnc
     if pid == 0 {
         // child
         unsafe { libc::close(fds[0]) };
-        crate::common::thread_init();
-        let r = f();
+        // run on a brand-new thread: the forking thread's thread-locals (in
+        // particular std's per-thread hash seed, drawn from the real kernel)
+        // must not leak into the subject; the new thread draws its seed under
+        // the simulation's deterministic getrandom
+        let r = std::thread::scope(|s| {
+            std::thread::Builder::new()
+                .stack_size(16 << 20)
+                .spawn_scoped(s, || {
+                    crate::interpose::deterministic_entropy(0x5eed_5eed_5eed_5eed);
+                    crate::common::thread_init();
+                    f()
+                })
+                .unwrap_or_else(|_| unsafe { libc::_exit(3) })
+                .join()
+                .unwrap_or_else(|_| unsafe { libc::_exit(3) })
+        });
         let bytes = serde_json::to_vec(&r).unwrap_or_default();
         let mut off = 0;
         while off < bytes.len() {
